@@ -10,7 +10,7 @@ BehaviourRecord(c) ==
    scheme |-> "theta", hyps |-> <<c.hyp>>, el |-> BrickElasticity, axes |-> AxesConvention(c),
    flowp |-> IF c.flow = "none" THEN P(<<>>, "") ELSE FlowParams(c.flow), critp |-> CritParams(c.crit), ihrp |-> IhrParams(c.ihr),
    khrp |-> KhrParams(c.khr), potp |-> IF c.pot = "Probe" THEN P(<<>>, "") ELSE PotParams(c.pot), nucp |-> NucParams(c.nuc)] @@ c
-CaseRecord(c, k, th) == [theta |-> th, f0 |-> InitialPorosity, bkey |-> CfgKey(c), hyp |-> c.hyp, path |-> [j \in 1..Len(Paths[k]) |-> [de |-> Paths[k][j][1], dt |-> Paths[k][j][2]]],
+CaseRecord(c, k, th) == [blockclass |-> BlockClass, theta |-> th, f0 |-> InitialPorosity, e0 |-> InitialElasticStrain, bkey |-> CfgKey(c), hyp |-> c.hyp, path |-> [j \in 1..Len(Paths[k]) |-> [de |-> Paths[k][j][1], dt |-> Paths[k][j][2]]],
                      pathid |-> k, njeps |-> JacobianPerturbations, p0 |-> InitialEquivalentStrain, cfg |-> c]
 Cs == LET s == SetToSeq({<<i, k, th>> : i \in 1..Len(Cfgs), k \in 1..Len(Paths), th \in Thetas}) IN
       [n \in 1..Len(s) |-> [id |-> n] @@ CaseRecord(Cfgs[s[n][1]], s[n][2], s[n][3])]
